@@ -18,6 +18,7 @@ pub mod c14;
 pub mod c15;
 pub mod c16;
 pub mod c17;
+pub mod c18;
 
 pub struct Monitor {
     pub meta: &'static PropMeta,
@@ -44,5 +45,6 @@ pub fn all() -> Vec<Monitor> {
         Monitor { meta: &c15::META, run: c15::run, replay: c15::replay },
         Monitor { meta: &c16::META, run: c16::run, replay: c16::replay },
         Monitor { meta: &c17::META, run: c17::run, replay: c17::replay },
+        Monitor { meta: &c18::META, run: c18::run, replay: c18::replay },
     ]
 }
